@@ -128,6 +128,49 @@ var extraPool = []KV{{"X-A", "1"}, {"X-Multi", "one"}, {"X-Multi", "two"}, {"Acc
 	{"X-Empty", ""}, {"Cache-Control", "no-cache, no-store"}, {"Zz-Last", "z"}, {"A-First", "a b  c"}, {"X-Utf", "café"},
 	{"Connection", "keep-alive"}, {"Accept-Encoding", "gzip"}, {"Etag", "\"abc\""}}
 
+// repeated fields: the same name on several lines (legal for list-valued fields, and in practice for
+// Cookie crumbs, several Authorization / Set-Cookie / Via / Warning lines): the per-name ORDER of the
+// values is part of the message.
+var repeatedReq = [][]string{
+	{"Cookie", "a=1", "sid=abc; theme=dark", "a=2", "x=\"q\""},
+	{"Authorization", "Basic dXNlcjpwYXNz", "Bearer tok-2", "Digest username=\"u\""},
+	{"Proxy-Authorization", "Basic cHJveHk6cHc=", "Bearer p2"},
+	{"Via", "1.1 a.example", "1.0 b.example (squid)", "1.1 a.example"},
+	{"Warning", "199 - \"misc\"", "214 - \"transformed\""},
+	{"X-Forwarded-For", "10.0.0.1", "192.168.1.7, 10.0.0.2", "10.0.0.1"},
+	{"Accept", "text/html", "*/*;q=0.1", "application/json"},
+	{"X-Rep", "one", "two", "one", "", "three"},
+}
+var repeatedRes = [][]string{
+	{"Set-Cookie", "a=1; Path=/", "sid=abc; HttpOnly", "a=2; Path=/x", "t=1; Secure"},
+	{"Via", "1.1 a.example", "1.0 b.example"},
+	{"Warning", "110 - \"stale\"", "199 - \"misc\""},
+	{"Www-Authenticate", "Basic realm=\"r\"", "Bearer realm=\"r2\"", "Negotiate"},
+	{"Vary", "Accept-Encoding", "Cookie", "Accept-Encoding"},
+	{"Link", "</a>; rel=preload", "</b>; rel=prefetch"},
+	{"X-Rep", "one", "two", "one", "", "three"},
+}
+
+// Repeated adds 2-4 lines of one repeated field (interleaved with what is there already).
+func Repeated(r *core.Rand, s *Spec) {
+	pool := repeatedRes
+	if s.Req {
+		pool = repeatedReq
+	}
+	f := pool[r.Intn(len(pool))]
+	for _, kv := range s.Extra {
+		if kv.K == f[0] {
+			return // keep the C16 cookie expectations simple: one source of lines per name
+		}
+	}
+	n := r.Range(2, 4)
+	for i := 0; i < n; i++ {
+		kv := KV{f[0], f[1+r.Intn(len(f)-1)]}
+		at := r.Intn(len(s.Extra) + 1)
+		s.Extra = append(s.Extra[:at], append([]KV{kv}, s.Extra[at:]...)...)
+	}
+}
+
 var sizeClasses = []int{0, 1, 2, 9, 15, 16, 17, 255, 256, 257, 1000, 4095, 4096, 4097}
 
 // Size draws a body size: small boundary values mostly; up to max otherwise.
@@ -188,6 +231,9 @@ func Gen(r *core.Rand, req bool, maxBody int) *Spec {
 	}
 	for i, n := 0, r.Intn(4); i < n; i++ {
 		s.Extra = append(s.Extra, extraPool[r.Intn(len(extraPool))])
+	}
+	for i, n := 0, r.Pick2(0, r.Pick2(1, 2)); i < n; i++ {
+		Repeated(r, s)
 	}
 	s.Proto10 = r.Chance(1, 12)
 	// framing
